@@ -114,6 +114,48 @@ theorem abort_on_failure (ls : List Label) (s s' : Sys) (t b : Nat) (o : Outcome
   unfold isLive; unfold isDone at hd
   cases hst : (s'.tasks c).status <;> simp_all
 
+/-- **C06.abort_on_failure** for scopes with disposables: when their cleanup is over and the group exit begins with an
+exit reason that is an exception or a cancellation – the body's, a disposable's, or a cancellation delivered to the
+scope's task *while the cleanup was awaited* – the group is aborting and every member not yet done has been asked
+to cancel before the wait begins. -/
+theorem abort_on_exit_failure (ls : List Label) (s s' : Sys) (t b : Nat) (o : Outcome) (consumed : Bool)
+    (hr : run init ls = some s) (hs : step s (.cleanupEnd t b o consumed) = some s') (ho : o ≠ .ok) :
+    (s'.groups b).aborting = true ∧
+    ∀ c, (s'.tasks c).member = some b → isDone (s'.tasks c) = false → 0 < (s'.tasks c).asks := by
+  have hwf' : Wf s' := Reach.wf ⟨ls ++ [.cleanupEnd t b o consumed], run_snoc _ _ _ _ _ hr hs⟩
+  have key : ∀ (S : Sys) (o' : Outcome), o' ≠ .ok → ((beginExit S t b o').groups b).aborting = true := by
+    intro S o' ho'
+    unfold beginExit
+    simp only
+    split
+    · simp
+    · rename_i hc
+      have : (S.groups b).aborting = true := by
+        cases ha : (S.groups b).aborting with
+        | true => rfl
+        | false => simp [ha, ho'] at hc
+      simp [exitGroup, this]
+  have hab : (s'.groups b).aborting = true := by
+    simp only [step] at hs
+    split at hs
+    · split at hs
+      · split at hs
+        · split at hs
+          · simp only [Option.some.injEq] at hs; subst hs; exact key _ _ (by simp)
+          · simp at hs
+        · split at hs
+          · simp only [Option.some.injEq] at hs; subst hs; exact key _ _ ho
+          · simp at hs
+      · simp at hs
+    · simp at hs
+  refine ⟨hab, ?_⟩
+  intro c hm hd
+  have hin := hwf'.mem c b hm hd
+  have hna := (hwf'.listed b c hin).2
+  refine hwf'.aborted b c hab hin ?_
+  unfold isLive; unfold isDone at hd
+  cases hst : (s'.tasks c).status <;> simp_all
+
 /-- a task with a pending cancellation cannot be resumed normally -/
 theorem pending_cancel_blocks_resume (s : Sys) (c g : Nat) (h : (s.tasks c).mustCancel = true) :
     step s (.resume c g false) = none := by
@@ -205,7 +247,8 @@ theorem leave_enabled (s : Sys) (hw : Wf s) (t b : Nat) (susp : Bool) (hst : (s.
 /-- steps the event loop takes on its own: no action of the harness, no decision of user code beyond "the rest of
 the program is empty" -/
 def loopStep : Label → Bool
-  | .reap _ | .deliver _ | .silentEnd _ | .start _ | .resume _ _ _ | .bodyEnd _ _ _ | .left _ _ _ | .end_ _ _ => true
+  | .reap _ | .deliver _ | .silentEnd _ | .start _ | .resume _ _ _ | .bodyEnd _ _ _ | .cleanupEnd _ _ _ _ | .left _ _ _
+  | .end_ _ _ => true
   | _ => false
 
 /-- **The full progress statement**: in every reachable state in which a task waits in a group exit the loop can make
@@ -389,6 +432,12 @@ example : after [.start 0, .enter 0 1 true, .enter 0 2 false, .spawn 0 1 true, .
 example : after [.start 0, .enter 0 1 true, .spawn 0 1 true, .await 0 1, .start 1, .await 1 2, .rel 1, .resume 0 1 false,
     .spawn 0 2 true, .raise 0 false]
     (fun s => (step s (.bodyEnd 0 1 (.exc false))).isSome && !isDone (s.tasks 1) && !isDone (s.tasks 2)) = true := by
+  decide
+
+/-- `abort_on_exit_failure`: body returned normally, a member is blocked, the cancellation reaches the scope's task
+while the disposables cleanup is awaited -/
+example : after [.start 0, .enter 0 1 true, .spawn 0 1 true, .await 0 1, .start 1, .await 1 2, .rel 1, .resume 0 1 false, .cancel 0]
+    (fun s => (step s (.cleanupEnd 0 1 .cancelled true)).isSome && !isDone (s.tasks 1)) = true := by
   decide
 
 /-- `no_scope_detached`: the root task outside any scope -/
